@@ -41,7 +41,7 @@ Value& LOG10Expression::value(Context & ctx) const
     break;
   case Type::INTEGER:
     if (val.isNull())
-      return val;
+      break;
     v = Value(Numeric(std::log10(*val.integer())));
     break;
   case Type::NUMERIC:
